@@ -2,7 +2,7 @@
 from .. import common, specclass_run as R, tla
 
 ALL = ["scalars", "list_int", "set_str", "set_int", "dict_int", "nested", "nested_prep", "nested_prep_boom", "prepared", "prep_nonidem", "list_spec", "klist", "kset", "dict_spec",
-       "dnc_attr", "dnc_attr_decl", "dnc_class", "dflt_kinds", "dflt_kinds2", "inherit_spec", "inherit_plain", "inherit_plain_mut", "inherit_dnc", "inherit_dnc_items", "spec_plain_spec", "bad_default", "attrs_arg", "eager"]
+       "dnc_attr", "dnc_attr_decl", "dnc_class", "dflt_kinds", "dflt_kinds2", "inherit_spec", "inherit_plain", "inherit_plain_mut", "inherit_dnc", "inherit_dnc_items", "spec_plain_spec", "bad_default", "attrs_arg", "sibling_redeclare", "dnc_iprep", "dnc_plain_redefault", "eager"]
 ELEM = {"with_item", "update_item", "transform_item", "without_item"}
 
 
@@ -22,13 +22,17 @@ def is_cow(a):
 
 
 def run(prop, tier, prefixes, *, names=ALL, act_filter=None, quick_pairs=12000, thorough_pairs=None, need=("cow", "raised", "specified", "changed"),
-        rule="", assumptions=(), fault_pairs=(0, 0), fault_stride=(1, 1), histories=((1, 25), (16, 40)), gen_only=lambda g: True):
+        rule="", assumptions=(), fault_pairs=(0, 0), fault_stride=(1, 1), histories=((1, 25), (16, 40)), gen_only=lambda g: True, extra=None):
     rep = common.Report(prop, tier)
     names = list(names) + [n for n in generated(tier, gen_only) if n not in names]
     result = R.collect(rep, names, tier, act_filter=act_filter, max_pairs=quick_pairs if tier != "thorough" else thorough_pairs, seed=common.seed(),
                        fault_pairs=fault_pairs[tier == "thorough"], fault_stride=fault_stride[tier == "thorough"],
                        histories=histories[tier == "thorough"])
     R.report_clauses(rep, result, prefixes)
+    if extra is not None:          # a further phase of the same check (own model, driver and judge), reporting into the same Report
+        n_extra, d_extra = extra(rep, tier)
+        result["n"] += n_extra
+        result["distinct"] += d_extra
     res = {"ante": result["ante"]}
     rep.add_events(result["n"], result["distinct"], [{k: e[k] for k in ("scn", "a", "pre", "recv_post", "res", "result", "same")} for e in result["samples"][:3]])
     rep.coverage.update({"scenarios": list(names), "judge_antecedents": res["ante"], "clauses_kept": list(prefixes),
